@@ -299,6 +299,8 @@ func runC16(c *gen.Ctx) error {
 	// server-side middleware handing over a trace that must be final
 	c16WireGen(c)
 	c16FinalGen(c)
+	// ---- exactly-once on a traced HTTP/2 connection under every tear-down sequence
+	c16TeardownGen(c)
 	// ---- Tracer: every operation order up to maxLen
 	maxLen := 4
 	peekBudget := 120
